@@ -213,3 +213,25 @@ fn c05_v2s_get_pure() {
     assert!(inp.gets.get() == 0 && inp.updates == 0);
     reach!();
 }
+
+// ------------------------------------------------------------------------------------------------
+// C10: "the to-state converters panic on wrongly dimensioned input when checking is enabled" (this module runs in the
+// dev configuration: dim_check_debug + debug assertions).  The Verus units state the unit as update's precondition;
+// the panic itself is this obligation.
+// ------------------------------------------------------------------------------------------------
+
+//@ob fn="<VelocityToState<G,E> as Updatable>::update" at=src/streams/converters.rs:268 prop=C10 clause="a present sample whose unit is not MILLIMETER_PER_SECOND makes update() panic, from EVERY state (any remembered depth, any stored units and times) and for every such unit and value: no path returns"
+#[kani::proof]
+#[kani::should_panic]
+fn c10_v2s_wrong_unit_update_panics() {
+    // keeps the should_panic verdict defined when nothing panics (see c14_command.rs); constrains nothing
+    if kani::any() {
+        panic!("sentinel: not part of the obligation");
+    }
+    let d: Datum<Quantity> = kani::any();
+    kani::assume(d.value.unit != MILLIMETER_PER_SECOND);
+    let mut inp = Scripted::new(Ok(Some(d)));
+    let mut s = any_st(rf(&mut inp));
+    let _ = s.update();
+    kani::cover!(true, "unreach: returned normally");
+}
